@@ -233,6 +233,16 @@ def oracle_vector(case, rec):
     for i in range(1, len(outs)):
         if not same(outs[0], outs[i], squeeze=squeeze):
             raise Violation('C19/%s/layout-changes-result' % name, 'variant %d' % i)
+    # the same values in another memory layout (strided view of a larger buffer / column-major)
+    with warnings.catch_warnings():
+        warnings.simplefilter('ignore')
+        for lay in ('strided', 'F'):
+            try:
+                alt = f(*[gens.relayout(a, lay) for a in variants[0]])
+            except Exception as e:
+                raise Violation('C19/%s/rejects-memory-layout/%s' % (name, lay), repr(e))
+            if not same(outs[0], alt, squeeze=squeeze):
+                raise Violation('C19/%s/memory-layout-changes-result/%s' % (name, lay), '')
     rec.cls('routine=' + name)
     rec.cls('readonly' if case['readonly'] else 'writable')
     return True
